@@ -478,6 +478,8 @@ func runFrame(fr *frame) {
 			panic(r)
 		case engineBug:
 			panic(r)
+		case coKilled:
+			panic(r)
 		case targetPanic:
 			fr.panic = r
 		case runtime.Error:
